@@ -40,8 +40,16 @@ def run(res, tier):
         X, A0, B0 = lmi.linear_data(rng, ns, nu, kind=kind)
         for name, Xi in supply_rates(rng, ns, nu):
             xi_eff = Xi if Xi is not None else np.block([[np.eye(ns), np.zeros((ns, nu))], [np.zeros((nu, ns)), -np.eye(nu)]])
+            extra = {}
+            v = int(rng.integers(0, 4))
+            if v == 1 and ns + nu >= 2:
+                extra = dict(inv_method='svd', tsvd=pykoop.Tsvd('rank', int(rng.integers(max(1, ns), ns + nu))))   # truncating SVD
+            elif v == 2:
+                extra = dict(inv_method=str(rng.choice(['eig', 'chol', 'sqrt', 'ldl'])))
+            elif v == 3:
+                extra = dict(inv_method='svd', tsvd=pykoop.Tsvd('cutoff', 1e-3))
             reg = L.LmiEdmdDissipativityConstr(alpha=float(rng.choice([0, 0.1])), supply_rate=Xi,
-                                               max_iter=int(rng.choice([2, 3, 4])), solver_params=lmi.SOLVER)
+                                               max_iter=int(rng.choice([2, 3, 4])), solver_params=lmi.SOLVER, **extra)
             try:
                 reg.fit(X, n_inputs=nu, episode_feature=True)
             except Exception as e:  # noqa
@@ -120,7 +128,7 @@ def run(res, tier):
               'passivity-like rates with a non-zero cross block, on stable / marginal / unstable data; per non-zero fit: '
               'lambda_min of the 3x3 block LMI at the returned (U, P_), simulated dissipation inequality on random input '
               'sequences, objective log; per all-zero fit: is U = 0 strictly feasible for some storage cI (then the fallback '
-              'is vacuous).'),
+              'is vacuous). One fit in two varies inv_method or uses a truncating Tsvd (rank below the number of lifted features, cutoff).'),
         samples=samples, input_distribution=dist, known_finding_hits=kn)
     res.assumptions += ['CVXOPT/PICOS feasibility when "optimal" is an oracle contract; theorem: LMI => dissipation inequality for '
                         'every input sequence and horizon (AlgR/Dissip.v, standard-library real-number axioms)']
